@@ -427,11 +427,14 @@ func (cs *clientStream) doHttpCall(transport http.RoundTripper, req *http.Reques
 			defer cs.rMu.Unlock()
 
 			if rErr != nil && cs.rErr == nil {
-				if _, ok := status.FromError(rErr); !ok && cs.ctx.Err() != nil {
-					// reading the response was aborted because the context ended
-					rErr = statusFromContextError(cs.ctx.Err())
-				}
 				cs.rErr = rErr
+			}
+			if cs.rErr != nil {
+				if _, ok := status.FromError(cs.rErr); !ok && cs.ctx.Err() != nil {
+					// reading the response (a message or the trailer) was aborted
+					// because the context ended
+					cs.rErr = statusFromContextError(cs.ctx.Err())
+				}
 			}
 			cs.done = true
 			readPipe.CloseWithError(rErr)
